@@ -1688,10 +1688,13 @@ def run(chk):
     t2 = time.time()
     part_front(chk, T, runner, jobs)
     t3 = time.time()
+    import sys, c19_spec
+    c19_spec.part_spec(chk, sys.modules[__name__], T, runner, jobs)
+    t3b = time.time()
     part_pairs(chk, T, runner)
     t4 = time.time()
     part_e2e(chk, T, runner, pending)
-    chk.cov["part_wall_s"] = {"cfg": round(t1 - t0, 1), "cwd": round(t2 - t1, 1), "front": round(t3 - t2, 1), "pairs": round(t4 - t3, 1), "e2e": round(time.time() - t4, 1)}
+    chk.cov["part_wall_s"] = {"cfg": round(t1 - t0, 1), "cwd": round(t2 - t1, 1), "front": round(t3 - t2, 1), "spec": round(t3b - t3, 1), "pairs": round(t4 - t3b, 1), "e2e": round(time.time() - t4, 1)}
     shutil.rmtree(os.path.join(wd, "r"), ignore_errors=True)
 
 
